@@ -11,6 +11,7 @@
 //!   c09 leb <seed> <n>               LEB128 readers of parse.rs on crafted byte strings
 //!   c09 imports                      allowed import / export tables of the v0 and v1 validators
 //!   c09 replay                       module bytes (hex) from stdin, one per line: verdicts + execution
+//!   c09 memsweep                     loads/stores of every width at effective addresses around the end of memory
 mod ast;
 mod gen;
 mod mutate;
@@ -460,6 +461,41 @@ fn mode_bytes(seed: u64, n: u64, files: &[String]) {
     for (name, b) in &corpus {
         byte_case(&mut stats, name, "corpus", b, None, true);
     }
+    // element / data segments against table / memory limits {min, max}: the size is the MINIMUM
+    {
+        let f0 = Func { ty: 0, locals: vec![], body: vec![Op::End], rle: None };
+        let mut k = 0;
+        for tmin in [1u32, 3] {
+            for tmax in [None, Some(tmin), Some(tmin + 1), Some(tmin + 9), Some(100_000)] {
+                let top = tmax.unwrap_or(tmin);
+                for off in [0u32, tmin - 1, tmin, tmin + 1, (tmin + top) / 2, top.saturating_sub(1), top, top + 1] {
+                    for len in [1u32, 2, tmin] {
+                        if off > 1000 { continue; }
+                        let m = Module { types: vec![Sig { params: vec![], result: None }], funcs: vec![f0.clone()], table: Some(tmin), table_max: tmax,
+                                         elems: vec![(off, vec![0; len as usize])], ..Default::default() };
+                        let ok = off as u64 + len as u64 <= tmin as u64;
+                        byte_case(&mut stats, &format!("seg-t{}", k), if ok { "segment:elem-within-table-min" } else { "segment:elem-beyond-table-min" }, &m.encode(), Some(ok), false);
+                        k += 1;
+                    }
+                }
+            }
+        }
+        for mmin in [1u32, 2] {
+            for mmax in [None, Some(mmin), Some(mmin + 1), Some(mmin + 9), Some(65536)] {
+                let top = mmax.unwrap_or(mmin).min(mmin + 9) as u64 * 65536;
+                let lim = mmin as u64 * 65536;
+                for len in [1u64, 8] {
+                    for off in [0u64, lim - len, lim - len + 1, lim, lim + 1, (lim + top) / 2, top.saturating_sub(len), top] {
+                        let m = Module { types: vec![Sig { params: vec![], result: None }], funcs: vec![f0.clone()], mem: Some((mmin, mmax)),
+                                         data: vec![(off as u32, vec![0xAB; len as usize])], ..Default::default() };
+                        let ok = off + len <= lim;
+                        byte_case(&mut stats, &format!("seg-m{}", k), if ok { "segment:data-within-memory-min" } else { "segment:data-beyond-memory-min" }, &m.encode(), Some(ok), false);
+                        k += 1;
+                    }
+                }
+            }
+        }
+    }
     let per = (n / corpus.len().max(1) as u64).max(1);
     for (name, b) in &corpus {
         if b.len() > 400_000 { continue; }
@@ -721,6 +757,83 @@ fn mode_imports() {
     println!("{}", json!({"imports": {"checks": checks, "fails": fails}}));
 }
 
+// ------------------------------------------------------------------ memory access sweep
+/// Every load / store opcode: (byte, width in bytes, is_store, value type is i64)
+const MEMOPS: &[(u8, u64, bool, bool)] = &[
+    (0x28, 4, false, false), (0x29, 8, false, true), (0x2c, 1, false, false), (0x2d, 1, false, false), (0x2e, 2, false, false), (0x2f, 2, false, false),
+    (0x30, 1, false, true), (0x31, 1, false, true), (0x32, 2, false, true), (0x33, 2, false, true), (0x34, 4, false, true), (0x35, 4, false, true),
+    (0x36, 4, true, false), (0x37, 8, true, true), (0x3a, 1, true, false), (0x3b, 2, true, false), (0x3c, 1, true, true), (0x3d, 2, true, true), (0x3e, 4, true, true),
+];
+/// Accesses of every width at effective addresses len-9 .. len+1 (constant address, offset immediate, both),
+/// before and after memory.grow (also up to the full MAX_NUM_PAGES): an access traps iff ea + width > len
+/// (independent bounds computation); in-bounds stores must be visible in the final memory.
+fn mode_memsweep() {
+    let mut runs = 0u64; let mut traps = 0u64; let mut oks = 0u64; let mut bad: Vec<String> = vec![];
+    // (initial pages, declared max, pages to grow before the access)
+    for (min, max, grow) in [(1u32, Some(3u32), 0u32), (1, Some(3), 1), (2, None, 0), (32, Some(512), 480), (32, Some(1000), 480), (1, None, 511)] {
+        let len = (min + grow) as u64 * 65536;
+        for off in [0u32, 5, 65000] {
+            // one function per opcode: (param i32) [grow;] access
+            let mut types = vec![];
+            let mut funcs = vec![];
+            for (b, _w, store, is64) in MEMOPS {
+                let sig = if *store { Sig { params: vec![VT::I32], result: None } } else { Sig { params: vec![VT::I32], result: Some(if *is64 { VT::I64 } else { VT::I32 }) } };
+                let ty = match types.iter().position(|t| *t == sig) { Some(i) => i, None => { types.push(sig); types.len() - 1 } } as u32;
+                let mut body = vec![];
+                if grow > 0 { body.extend(vec![Op::I32Const(grow as i32), Op::Plain(0x40), Op::Plain(0x1a)]); }
+                body.push(Op::LocalGet(0));
+                if *store { body.push(if *is64 { Op::I64Const(0x1122334455667788) } else { Op::I32Const(0x55667788) }); }
+                body.push(Op::Mem(*b, off, 0));
+                body.push(Op::End);
+                funcs.push(Func { ty, locals: vec![], body, rle: None });
+            }
+            let m = Module { types, funcs, mem: Some((min, max)), ..Default::default() };
+            let bytes = m.encode();
+            for metered in [false, true] {
+                let art = match instantiate(ValidationConfig::V1, Imp::All, metered, &bytes) {
+                    Ok(Ok(a)) => a,
+                    other => { bad.push(format!("sweep module rejected: {}", verdict(&other))); continue; }
+                };
+                for (fi, (b, w, store, _)) in MEMOPS.iter().enumerate() {
+                    for k in 0..=10u64 {
+                        let ea = len - 9 + k;
+                        if ea < off as u64 { continue; }
+                        let addr = ea - off as u64;
+                        if addr > u32::MAX as u64 { continue; }
+                        if (min + grow >= 512) && !(k % 2 == 0 || *w == 8) { continue; }
+                        PROGRESS.fetch_add(1, Ordering::SeqCst);
+                        let mut host = TH { energy: 10_000_000, depth: 0, calls: 0 };
+                        let name = format!("f{}", fi);
+                        let r = guarded(|| art.run(&mut host, name.as_str(), &[Value::I32(addr as u32 as i32)]));
+                        runs += 1;
+                        let must_trap = ea + w > len;
+                        let desc = || format!("op {:#04x} width {} {} min {} max {:?} grow {} offset {} addr {} (ea {} = len{:+}) metered {}",
+                                              b, w, if *store { "store" } else { "load" }, min, max, grow, off, addr, ea, ea as i64 - len as i64, metered);
+                        match r {
+                            Err(p) => bad.push(format!("PANIC {}: {}", desc(), p)),
+                            Ok(Err(_)) => { traps += 1; if !must_trap { bad.push(format!("in-bounds access trapped: {}", desc())); } }
+                            Ok(Ok(ExecutionOutcome::Interrupted { .. })) => bad.push(format!("interrupt: {}", desc())),
+                            Ok(Ok(ExecutionOutcome::Success { result, memory })) => {
+                                oks += 1;
+                                if must_trap { bad.push(format!("OUT-OF-BOUNDS access did not trap (result {:?}): {}", result, desc())); continue; }
+                                if memory.len() as u64 != len { bad.push(format!("memory length {} instead of {}: {}", memory.len(), len, desc())); continue; }
+                                if *store {
+                                    let want = 0x1122334455667788u64.to_le_bytes();
+                                    if memory[ea as usize..(ea + w) as usize] != want[..*w as usize] { bad.push(format!("store not visible: {}", desc())); }
+                                } else {
+                                    match result { Some(Value::I32(0)) | Some(Value::I64(0)) => {}, other => bad.push(format!("load of zero memory returned {:?}: {}", other, desc())) }
+                                }
+                            }
+                        }
+                    }
+                }
+            }
+        }
+    }
+    bad.truncate(20);
+    println!("{}", json!({"memsweep": {"runs": runs, "traps": traps, "ok": oks, "bad": bad}}));
+}
+
 fn mode_replay() {
     use std::io::BufRead;
     for l in std::io::stdin().lock().lines() {
@@ -766,6 +879,7 @@ fn main() {
         "leb" => mode_leb(num(2), num(3)),
         "imports" => mode_imports(),
         "replay" => mode_replay(),
+        "memsweep" => mode_memsweep(),
         _ => { eprintln!("unknown mode"); std::process::exit(2) }
     }
     let _: J = json!(null);
